@@ -157,6 +157,12 @@ def run(ctx):
         ctx.guarded(r, AC.check_choice_protocol, kind)
     r = ctx.rule("R2s", "native min/max branch on strict comparisons like the interpreter's choice functions", 14)
     ctx.guarded(r, AC.check_strictness)
+    from .. import asmcopy as AK
+
+    r = ctx.rule("R2e", "the tracing assemblers' call helpers restore the choice pointer (rsi) and the flag pointer (rdx) with every live register", 4)
+    for kind in AC.TRACING:
+        for n in ("call_fn_unary", "call_fn_binary"):
+            ctx.guarded(r, AK.check_call_helper, kind, n)
     from . import C10
 
     r = ctx.rule("R5", "output / choice buffers are sized to the tape's counts before every evaluation", 19)
